@@ -106,7 +106,7 @@ EcSigOk(e, rzero) ==
 (* -------------------------------------------------------------------- RSA *)
 HLen == 32
 (* RFC 8017 9.1.2 EMSA-PSS-VERIFY with sLen = 0 on the integer m = s^e mod N; steps as numbered there *)
-PssVerify(mHash, m, emBits) ==
+PssVerifyG(mHash, m, emBits, checkH) ==
     LET emLen == (emBits + 7) \div 8
         zb == 8 * emLen - emBits                  \* number of leftmost bits that must be zero
     IN  /\ BLenBytes(m) <= emLen                   \* 8.1.2 step 2c: I2OSP(m, emLen) exists
@@ -119,7 +119,26 @@ PssVerify(mHash, m, emBits) ==
                /\ LET DB0 == X!StrXor(mDB, X!Mgf1Sha256(Hh, emLen - HLen - 1))   \* 7, 8
                       DB == <<DB0[1] % (2 ^ (8 - zb))>> \o Tail(DB0)             \* 9
                   IN  /\ DB = Zeros(emLen - HLen - 2) \o <<1>>                  \* 10
-                      /\ Hh = X!Sha256(Zeros(8) \o mHash)                       \* 12 - 14
+                      /\ (checkH => Hh = X!Sha256(Zeros(8) \o mHash))            \* 12 - 14
+PssVerify(mHash, m, emBits) == PssVerifyG(mHash, m, emBits, TRUE)
+(* pad_pkcs2 unmasks digit-wise (m->dp[i] ^= t->dp[i]) without growing m->used: DB is inspected only in the   *)
+(* nd = used digits of maskedDB.  This predicate = PssVerify with step 10 restricted to those digits AND a   *)
+(* non-zero ignored part (so it never holds for a valid encoding).  wbits = bits per digit.                  *)
+PssVerifyLowDigits(mHash, m, emBits, wbits) ==
+    LET emLen == (emBits + 7) \div 8
+        zb == 8 * emLen - emBits
+    IN  /\ BLenBytes(m) <= emLen /\ emLen >= HLen + 2
+        /\ LET EM == BToBE(m, emLen)
+               mDB == SubSeq(EM, 1, emLen - HLen - 1)
+               Hh == SubSeq(EM, emLen - HLen, emLen - 1)
+               mi == BFromBE(mDB)
+               nd == IF mi = <<>> THEN 1 ELSE (BBits(mi) + wbits - 1) \div wbits
+           IN  /\ EM[emLen] = 188 /\ mDB[1] < 2 ^ (8 - zb)
+               /\ LET DB0 == X!StrXor(mDB, X!Mgf1Sha256(Hh, emLen - HLen - 1))
+                      DB == BFromBE(<<DB0[1] % (2 ^ (8 - zb))>> \o Tail(DB0))
+                  IN  /\ BLow(DB, wbits * nd) = <<1>>
+                      /\ BShr(DB, wbits * nd) # <<>>
+                      /\ Hh = X!Sha256(Zeros(8) \o mHash)
 (* the same with the offending leftmost bits of the encoded message cleared first *)
 PssVerifyLax(mHash, m, emBits) ==
     PssVerify(mHash, BLow(m, emBits), emBits)
@@ -299,7 +318,20 @@ SigKnownKey(e) ==
                 \* basic padding: h1 = alloca(max(msg_len, RLC_MD_LEN) + 8) receives the whole payload behind the FF marker
                 overflow == e.pad = "basic" /\ Len(em) >= 1 /\ em[1] = 255
                             /\ Len(em) - 1 > (IF Len(e.msg) > HLen THEN Len(e.msg) ELSE HLen) + 8
-            IN  IF ~wellformed THEN ""
+            IN  IF e.mdl = 32 /\ e.flag # 0 /\ Len(e.msg) # HLen
+                THEN \* pre-hashed mode compares msg_len bytes only: a proper prefix or a zero-extended copy of the signed
+                     \* digest D (recovered from the encoded message) is accepted
+                     (IF /\ Clean(e) /\ e.crash = 0 /\ e.ret = 1
+                         /\ Len(e.sig) = BLenBytes(N) /\ BLt(s, N)
+                         /\ IF e.pad = "pss"
+                            THEN Len(e.msg) = 0 /\ PssVerifyG(<<>>, m, BBits(N) - 1, FALSE)   \* zero bytes compared
+                            ELSE /\ Len(em) >= HLen
+                                 /\ LET D == SubSeq(em, Len(em) - HLen + 1, Len(em)) IN
+                                    /\ RsaPad(e, D, m, N)
+                                    /\ IF Len(e.msg) < HLen THEN SubSeq(D, 1, Len(e.msg)) = e.msg
+                                       ELSE e.msg = D \o Zeros(Len(e.msg) - HLen)
+                      THEN "C05-rsa-prehashed-digest-length-not-checked" ELSE "")
+                ELSE IF ~wellformed THEN ""
                 ELSE IF Len(e.sig) = BLenBytes(N) /\ BLt(s, N) /\ overflow
                      THEN \* undefined behaviour: abnormal end or a verdict that differs from the definition
                           (IF e.crash # 0 \/ ~Verdict(e, RsaDef(e)) THEN "C05-rsa-basic-payload-overflows-stack-buffer" ELSE "")
@@ -316,6 +348,8 @@ SigKnownKey(e) ==
                 ELSE IF e.pad = "pss" /\ ~RsaCore(e, s)
                         /\ PssVerifyLax(h, m, BBits(N) - 1)
                      THEN "C05-rsa-pss-leftmost-bit-not-checked"
+                ELSE IF e.pad = "pss" /\ ~RsaCore(e, s) /\ PssVerifyLowDigits(h, m, BBits(N) - 1, 8 * e.w)
+                     THEN "C05-rsa-pss-db-above-used-digits-not-checked"
                 ELSE IF e.pad = "basic" /\ ~RsaCore(e, s) /\ Len(em) >= 1 /\ em[1] = 255
                         /\ LET P == Tail(em) IN
                            \/ (Len(P) > Len(h) /\ SubSeq(P, 1, Len(h)) = h)            \* bytes behind the digest
